@@ -345,17 +345,14 @@ def _extract_attributes(element):
             # an empty element carries the empty string (lxml reports None)
             text = ""
 
+        datatype = langtag = ref = None
         for key, value in subel.attrib.items():
             if key == _ns_xsi("type"):
                 datatype = xml_qname_to_QualifiedName(subel, value)
-                if datatype == XSD_QNAME:
-                    _v = xml_qname_to_QualifiedName(subel, text)
-                else:
-                    _v = prov.model.Literal(text, datatype)
             elif key == _ns_prov("ref"):
-                _v = xml_qname_to_QualifiedName(subel, value)
+                ref = value
             elif key == _ns_xml("lang"):
-                _v = prov.model.Literal(text, langtag=value)
+                langtag = value
             else:
                 warnings.warn(
                     "The element '%s' contains an attribute %s='%s' "
@@ -365,7 +362,16 @@ def _extract_attributes(element):
                     UserWarning,
                 )
 
-        if not subel.attrib:
+        # the value does not depend on the order of the XML attributes
+        if ref is not None:
+            _v = xml_qname_to_QualifiedName(subel, ref)
+        elif datatype == XSD_QNAME:
+            _v = xml_qname_to_QualifiedName(subel, text)
+        elif langtag is not None:
+            _v = prov.model.Literal(text, datatype, langtag)
+        elif datatype is not None:
+            _v = prov.model.Literal(text, datatype)
+        else:
             _v = text
 
         attributes.append((_t, _v))
